@@ -10,7 +10,9 @@ from vf.props import fixfam
 
 LEVEL = "exploration"
 RULE = (
-    "every executable statement of G(k) with every single deviation D(1;WKM) plus the operator list, dialect sqlite, all rules "
+    "every executable statement of G(k) with every single deviation D(1;WKM) plus the operator list, plus the scoping family (correlated "
+    "sub-queries nested <= 3 levels via EXISTS / IN / scalar comparison x every choice of enclosing alias referred to at each level x "
+    "alias syntax x bare / inside a CTE: 936 queries), dialect sqlite, all rules "
     "except ST06 (column reordering) and CV05 (NULL comparison rewrite); executed in stdlib SQLite before and after fixing on "
     "three fixed database instances (empty; NULLs + duplicates; distinct rows). Non-trivial = original executes on every "
     "instance, the fix changed the text, and at least one instance returns rows; distinct inputs by construction."
@@ -46,7 +48,35 @@ def cases(tier):
     if tier == "thorough":
         ss |= set(corpus.G(3))
     ss = sorted((s for s in ss if s.lstrip().upper().startswith(("SELECT", "WITH"))), key=lambda s: (len(s), s))
-    return [{"k": "q", "ss": ss[i : i + 16]} for i in range(0, len(ss), 16)]
+    sc = scope_queries()
+    return [{"k": "q", "ss": ss[i : i + 16]} for i in range(0, len(ss), 16)] + [{"k": "q", "ss": sc[i : i + 16]} for i in range(0, len(sc), 16)]
+
+
+def scope_queries():
+    """Scoping family: correlated sub-queries nested up to 3 levels (EXISTS / IN / scalar comparison), every
+    choice of which enclosing level's alias each level refers to, explicit and implicit alias syntax, the outer
+    query using its alias itself or not, bare and wrapped in a CTE."""
+    conn = {
+        "exists": lambda inner, lhs: "EXISTS (%s)" % inner,
+        "in": lambda inner, lhs: "%s IN (%s)" % (lhs, inner),
+        "scalar": lambda inner, lhs: "%s >= (%s)" % (lhs, inner),
+    }
+    out = set()
+    for askw in (" AS ", " "):
+        for outer_sel in ("x.a", "a"):
+            for c1 in conn:
+                for c2 in list(conn) + [None]:
+                    for r2 in ("y.a", "x.a", "x.b"):
+                        for r3 in ("z.a", "y.a", "x.a", "x.b") if c2 else (None,):
+                            w2 = "y.a = " + r2
+                            if c2:
+                                inner3 = "SELECT %s FROM t1%sz WHERE z.a >= %s" % ("max(z.a)" if c2 == "scalar" else "z.a", askw, r3)
+                                w2 += " AND " + conn[c2](inner3, "y.a")
+                            inner2 = "SELECT %s FROM u%sy WHERE %s" % ("max(y.a)" if c1 == "scalar" else "y.a", askw, w2)
+                            q = "SELECT %s FROM t%sx WHERE %s" % (outer_sel, askw, conn[c1](inner2, "x.a" if outer_sel == "x.a" else "a"))
+                            out.add(q + "\n")
+                            out.add("WITH c AS (%s) SELECT a FROM c\n" % q)
+    return sorted(out, key=lambda s: (len(s), s))
 
 
 def execute(con, sql):
